@@ -509,6 +509,8 @@ def gen_material(rng):
     params: Dict[str, str] = {}
     for _ in range(rng.choice((0, 1, 3, 6))):
         n = name()
+        if rng.random() < 0.05:
+            n = ''   # an empty name is a string like any other (it has to be written quoted)
         if n.casefold() not in {k.casefold() for k in params}:
             params[n] = rng.choice((s(14), '[1 0.5 0]', 'models\\props\\metal01', '{255 255 255}', 'center .5 .5 scale 1 1 rotate 0 translate 0 0', '1'))
 
@@ -713,7 +715,7 @@ def gen_mesh(rng):
 
     def vert() -> Any:
         if rng.random() < 0.6:
-            links = [(rng.choice(order), 1.0)]
+            links = [(rng.choice(order), 1.0 if rng.random() < 0.7 else d6(0, 1))]   # one link, sometimes with a weight of its own
         else:
             links = [(rng.choice(order), d6(0, 1)) for _ in range(rng.choice((2, 2, 3, 4)))]
         return Vertex(Vec(d6(-512, 512), d6(-512, 512), d6(-512, 512)), Vec(d6(-1, 1), d6(-1, 1), d6(-1, 1)),
